@@ -33,9 +33,10 @@ def sh(cmd, **kw):
 
 sh("git -C /repo worktree remove --force %s" % wt)
 sh("rm -rf %s; git -C /repo worktree prune" % wt)
-rc, out = sh("git -C /repo worktree add -q --detach %s HEAD" % wt)
+base = os.environ.get("VSEED_BASE", "HEAD")      # a seed written before a later repair of the same code is verified against its own base
+rc, out = sh("git -C /repo worktree add -q --detach %s %s" % (wt, base))
 assert rc == 0, out
-res = {"seed": sid, "property": pid, "repo_commit": sh("git -C /repo rev-parse HEAD")[1].strip()}
+res = {"seed": sid, "property": pid, "repo_commit": sh("git -C /repo rev-parse %s" % os.environ.get("VSEED_BASE", "HEAD"))[1].strip()}
 try:
     env = "cd %s && PYTHONPATH=%s" % (wt, wt)
     rc0, out0 = sh("%s timeout 600 /venv/bin/python %s/demo.py" % (env, src))
